@@ -1,8 +1,144 @@
+import Martian.Types
 import Driver.Util
 
-/-! Line-protocol handler for property C17 (stub: replaced when the model exists). -/
-namespace Driver.C17
+/-!
+Line-protocol handler for property C17.
 
-def handle (_op : String) (_args : List String) : Option String := none
+Text encoding (tokens separated by one space; byte strings hex, `-` = empty):
+
+  type  ::= string | int | float | bool | path | file | map
+          | U <name> | A <type> | M <type> | S <name> <n> (<field> <type>){n}
+  json  ::= n | t | f | i <int> | d <mant> <exp> | s <bytes>
+          | a <n> <json>{n} | o <n> (<key> <json>){n}
+
+Operations (`C17.<op>\t<arg>…`):
+  case <type> <json>    → `<check> <ferr> <check of filtered> <json of filtered>`
+  assign <dst> <src>    → `<assignable> <noHole> <hole classes: - | F9 | F10 | F9,F10>`
+  info <type>           → `<fileKind> <canFilter> <wf> <arrayDim> <mapDim>`
+-/
+namespace Driver.C17
+open Martian.Json Martian.Types Driver
+
+def parseBase : String → Option Base
+  | "string" => some .string | "int" => some .int | "float" => some .float
+  | "bool" => some .bool | "path" => some .path | "file" => some .file | "map" => some .map
+  | _ => none
+
+mutual
+  partial def parseTy : List String → Option (Ty × List String)
+    | "U" :: n :: r => do let n ← bytesOfHex n; pure (.user n, r)
+    | "A" :: r => do let (t, r) ← parseTy r; pure (.arr t, r)
+    | "M" :: r => do let (t, r) ← parseTy r; pure (.tmap t, r)
+    | "S" :: n :: c :: r => do
+      let n ← bytesOfHex n
+      let c ← c.toNat?
+      let (fs, r) ← parseFields c r
+      pure (.struct n fs, r)
+    | b :: r => do let b ← parseBase b; pure (.base b, r)
+    | [] => none
+  partial def parseFields : Nat → List String → Option (Fields × List String)
+    | 0, r => some (.nil, r)
+    | c + 1, k :: r => do
+      let k ← bytesOfHex k
+      let (t, r) ← parseTy r
+      let (fs, r) ← parseFields c r
+      pure (.cons k t fs, r)
+    | _, [] => none
+end
+
+mutual
+  partial def parseJ : List String → Option (J × List String)
+    | "n" :: r => some (.null, r)
+    | "t" :: r => some (.bool true, r)
+    | "f" :: r => some (.bool false, r)
+    | "i" :: v :: r => do let v ← v.toInt?; pure (.num (.int v), r)
+    | "d" :: m :: e :: r => do let m ← m.toInt?; let e ← e.toInt?; pure (.num (.flt m e), r)
+    | "s" :: s :: r => do let s ← bytesOfHex s; pure (.str s, r)
+    | "a" :: c :: r => do
+      let c ← c.toNat?
+      let (xs, r) ← parseJs c r
+      pure (.arr xs, r)
+    | "o" :: c :: r => do
+      let c ← c.toNat?
+      let (kvs, r) ← parseKVs c r
+      pure (.obj kvs, r)
+    | _ => none
+  partial def parseJs : Nat → List String → Option (List J × List String)
+    | 0, r => some ([], r)
+    | c + 1, r => do
+      let (x, r) ← parseJ r
+      let (xs, r) ← parseJs c r
+      pure (x :: xs, r)
+  partial def parseKVs : Nat → List String → Option (List (Bytes × J) × List String)
+    | 0, r => some ([], r)
+    | c + 1, k :: r => do
+      let k ← bytesOfHex k
+      let (x, r) ← parseJ r
+      let (xs, r) ← parseKVs c r
+      pure ((k, x) :: xs, r)
+    | _, [] => none
+end
+
+partial def showJ : J → String
+  | .null => "n"
+  | .bool true => "t"
+  | .bool false => "f"
+  | .num (.int v) => s!"i {v}"
+  | .num (.flt m e) => s!"d {m} {e}"
+  | .str s => "s " ++ hexOfBytes s
+  | .arr xs => " ".intercalate (s!"a {xs.length}" :: xs.map showJ)
+  | .obj kvs => " ".intercalate (s!"o {kvs.length}" :: kvs.map fun kv => hexOfBytes kv.1 ++ " " ++ showJ kv.2)
+
+def tyOf (s : String) : Option Ty :=
+  match parseTy (s.splitOn " ") with
+  | some (t, []) => some t
+  | _ => none
+
+def jOf (s : String) : Option J :=
+  match parseJ (s.splitOn " ") with
+  | some (v, []) => some v
+  | _ => none
+
+def showVerdict : Verdict → String
+  | .ok => "ok" | .alarm => "alarm" | .error => "error"
+
+def showFErr : FErr → String
+  | .ok => "ok" | .soft => "soft" | .fatal => "fatal"
+
+def showKind : FileKind → String
+  | .notFile => "notFile" | .mayContainPaths => "mayContainPaths"
+  | .file => "file" | .directory => "directory"
+
+/-- which of the two known design holes lie on the assignment `dst ← src`
+(labelling only: used to key known findings; `noHole` is the model function) -/
+partial def holes : Ty → Ty → List String
+  | .arr d, .arr s => holes d s
+  | .tmap d, .tmap s => (if isDirMap d && !isDirMap s then ["F9"] else []) ++ holes d s
+  | .tmap _, .struct _ _ => ["F10"]
+  | .struct _ fs, .struct _ fs' =>
+    fs.toList.flatMap fun kt =>
+      match fs'.get kt.1 with
+      | some t' => holes kt.2 t'
+      | none => []
+  | _, _ => []
+
+def handle (op : String) (args : List String) : Option String :=
+  match op, args with
+  | "case", [t, v] => do
+    let t ← tyOf t
+    let v ← jOf v
+    let f := filter t v
+    pure (" ".intercalate [showVerdict (check t v), showFErr f.2, showVerdict (check t f.1), showJ f.1])
+  | "assign", [d, s] => do
+    let d ← tyOf d
+    let s ← tyOf s
+    let hs := (holes d s).eraseDups
+    pure (" ".intercalate [boolStr (assignable d s), boolStr (noHole d s),
+      if hs.isEmpty then "-" else ",".intercalate hs])
+  | "info", [t] => do
+    let t ← tyOf t
+    pure (" ".intercalate [showKind (fileKind t), boolStr (canFilter t), boolStr t.wf,
+      toString (dims t).1, toString (dims t).2])
+  | _, _ => none
 
 end Driver.C17
